@@ -1,6 +1,23 @@
+//! C32 Time arithmetic is exact, era-safe and never panics.
+//! Reference arithmetic is i128 (NTP types) / checked 128-bit ops and two-limb reasoning (PTP types).
 use ntp_proto::verif::time_types as h;
 use ntp_proto::{NtpDuration, NtpTimestamp};
 
+fn wrap64(x: i128) -> i64 {
+    let m = x.rem_euclid(1i128 << 64);
+    (if m >= (1i128 << 63) { m - (1i128 << 64) } else { m }) as i64
+}
+fn clamp64(x: i128) -> i64 {
+    if x > i64::MAX as i128 {
+        i64::MAX
+    } else if x < i64::MIN as i128 {
+        i64::MIN
+    } else {
+        x as i64
+    }
+}
+
+// ------------------------------------------------------------------ NTP timestamps
 #[kani::proof]
 fn c32_ts_sub_add() {
     let a: u64 = kani::any();
@@ -9,21 +26,307 @@ fn c32_ts_sub_add() {
     let tb = h::ts_from_raw(b);
     let d = ta - tb;
     // shortest signed difference (two's complement of the wrapped difference)
-    let want = (a as i128 - b as i128).rem_euclid(1i128 << 64);
-    let want = if want >= (1i128 << 63) { want - (1i128 << 64) } else { want };
-    assert!(h::dur_raw(d) as i128 == want);
-    assert!(tb + d == ta);
-    assert!(ta - d == tb);
-    kani::cover!(a < b, "era wrap");
+    assert!(h::dur_raw(d) == wrap64(a as i128 - b as i128), "ts - ts is the shortest signed difference");
+    assert!(tb + d == ta, "adding the difference back restores the timestamp");
+    assert!(ta - d == tb, "subtracting the difference restores the other timestamp");
+    let mut t = tb;
+    t += d;
+    assert!(t == ta, "+= agrees");
+    t -= d;
+    assert!(t == tb, "-= agrees");
+    // is_before is the sign of the shortest difference
+    assert!(ta.is_before(tb) == (wrap64(a as i128 - b as i128) < 0), "is_before");
+    kani::cover!(a < b && h::dur_raw(d) > 0, "era wrap: numerically smaller but later");
+    kani::cover!(a > b && h::dur_raw(d) < 0, "era wrap: numerically larger but earlier");
+}
+
+#[kani::proof]
+fn c32_ts_add_dur() {
+    let a: u64 = kani::any();
+    let d: i64 = kani::any();
+    let t = h::ts_from_raw(a) + h::dur_from_raw(d);
+    let want = (a as i128 + d as i128).rem_euclid(1i128 << 64) as u64;
+    assert!(h::ts_raw(t) == want, "ts + dur wraps modulo 2^64");
+    let t2 = h::ts_from_raw(a) - h::dur_from_raw(d);
+    let want2 = (a as i128 - d as i128).rem_euclid(1i128 << 64) as u64;
+    assert!(h::ts_raw(t2) == want2, "ts - dur wraps modulo 2^64");
+    kani::cover!(want < a && d > 0, "forward wrap");
+}
+
+#[kani::proof]
+fn c32_ts_bits_truncate() {
+    let a: u64 = kani::any();
+    let t = h::ts_from_raw(a);
+    assert!(h::ts_raw(h::ts_from_bits(h::ts_to_bits(t))) == a, "timestamp wire round trip");
+    let k: u8 = kani::any();
+    let tr = h::ts_raw(t.truncated_second_bits(k));
+    if k >= 32 {
+        assert!(tr == 0, "all second bits truncated");
+    } else {
+        let unit = 1u128 << (k as u32 + 32);
+        assert!(tr as u128 == (a as u128 / unit) * unit, "truncation keeps the high second bits only");
+    }
+    let s: u32 = kani::any();
+    let n: u32 = kani::any();
+    kani::assume(n < 1_000_000_000);
+    let t = NtpTimestamp::from_seconds_nanos_since_ntp_era(s, n);
+    let want = ((s as u128) << 32) + (((n as u128) << 32) / 1_000_000_000);
+    assert!(h::ts_raw(t) as u128 == want, "seconds/nanos constructor");
+}
+
+// ------------------------------------------------------------------ NTP durations
+#[kani::proof]
+fn c32_dur_add_sub() {
+    let a: i64 = kani::any();
+    let b: i64 = kani::any();
+    let da = h::dur_from_raw(a);
+    let db = h::dur_from_raw(b);
+    assert!(h::dur_raw(da + db) == clamp64(a as i128 + b as i128), "addition saturates");
+    assert!(h::dur_raw(da - db) == clamp64(a as i128 - b as i128), "subtraction saturates");
+    let mut x = da;
+    x += db;
+    assert!(h::dur_raw(x) == clamp64(a as i128 + b as i128), "+= saturates");
+    let mut y = da;
+    y -= db;
+    assert!(h::dur_raw(y) == clamp64(a as i128 - b as i128), "-= saturates");
+    kani::cover!(a as i128 + b as i128 > i64::MAX as i128, "positive saturation");
+    kani::cover!(a as i128 - b as i128 < i64::MIN as i128, "negative saturation");
 }
 
 #[kani::proof]
 fn c32_dur_neg_abs() {
     let a: i64 = kani::any();
+    let b: i64 = kani::any();
     let d = h::dur_from_raw(a);
     let n = -d;
-    let want = if a == i64::MIN { i64::MAX } else { -a };
-    assert!(h::dur_raw(n) == want, "negation saturates");
+    assert!(h::dur_raw(n) == clamp64(-(a as i128)), "negation saturates");
     let ab = d.abs();
+    assert!(h::dur_raw(ab) == clamp64((a as i128).abs()), "abs saturates");
     assert!(h::dur_raw(ab) >= 0, "abs is non-negative");
+    let ad = d.abs_diff(h::dur_from_raw(b));
+    assert!(h::dur_raw(ad) == clamp64((a as i128 - b as i128).abs()), "abs_diff saturates");
+    kani::cover!(a == i64::MIN, "most negative duration");
+}
+
+macro_rules! mul_div_harness {
+    ($name:ident, $t:ty) => {
+        #[kani::proof]
+        fn $name() {
+            let a: i64 = kani::any();
+            let k: $t = kani::any();
+            let d = h::dur_from_raw(a);
+            let want = clamp64(a as i128 * (k as i64) as i128);
+            assert!(h::dur_raw(d * k) == want, "dur * k saturates");
+            assert!(h::dur_raw(k * d) == want, "k * dur saturates");
+            let mut m = d;
+            m *= k;
+            assert!(h::dur_raw(m) == want, "*= saturates");
+            if k != 0 {
+                let wantq = clamp64(a as i128 / (k as i64) as i128);
+                assert!(h::dur_raw(d / k) == wantq, "dur / k is exact (saturating at MIN / -1)");
+                let mut q = d;
+                q /= k;
+                assert!(h::dur_raw(q) == wantq, "/= agrees");
+            }
+            kani::cover!(want == i64::MAX && a != i64::MAX, "scaling saturated");
+        }
+    };
+}
+mul_div_harness!(c32_dur_scale_i8, i8);
+mul_div_harness!(c32_dur_scale_u8, u8);
+mul_div_harness!(c32_dur_scale_i16, i16);
+mul_div_harness!(c32_dur_scale_u16, u16);
+mul_div_harness!(c32_dur_scale_i32, i32);
+mul_div_harness!(c32_dur_scale_u32, u32);
+mul_div_harness!(c32_dur_scale_i64, i64);
+mul_div_harness!(c32_dur_scale_isize, isize);
+
+#[kani::proof]
+fn c32_dur_freq_tolerance() {
+    let a: i64 = kani::any();
+    let ppm: u32 = kani::any();
+    let d = h::dur_from_raw(a) * ntp_proto::FrequencyTolerance::ppm(ppm);
+    assert!(h::dur_raw(d) == clamp64(a as i128 * ppm as i128) / 1_000_000, "duration * ppm");
+}
+
+// ------------------------------------------------------------------ conversions
+#[kani::proof]
+fn c32_from_seconds_sign_saturation() {
+    let s: f64 = kani::any();
+    kani::assume(s.is_finite());
+    let d = h::dur_raw(NtpDuration::from_seconds(s));
+    if s > 0.0 {
+        assert!(d >= 0, "positive seconds never give a negative duration");
+    }
+    if s < 0.0 {
+        assert!(d <= 0, "negative seconds never give a positive duration");
+    }
+    if s == 0.0 {
+        assert!(d == 0, "zero maps to zero");
+    }
+    if s >= 2147483648.0 {
+        assert!(d == i64::MAX, "saturates high");
+    }
+    if s < -2147483648.0 {
+        assert!(d == i64::MIN, "saturates low");
+    }
+    kani::cover!(s > 1.0 && s < 2.0, "ordinary value");
+}
+
+#[kani::proof]
+fn c32_from_seconds_monotone_units() {
+    // within range, the result is within one unit of s * 2^32 scaled by (2^32-1)/2^32 in the fraction
+    let s: f64 = kani::any();
+    kani::assume(s.is_finite() && s >= -2147483648.0 && s < 2147483648.0);
+    let d = h::dur_raw(NtpDuration::from_seconds(s)) as i128;
+    let i = s.floor();
+    // integer part exact
+    assert!((d >> 32) == i as i128, "integer seconds are exact");
+}
+
+#[kani::proof]
+fn c32_wire_short_time32() {
+    let b: [u8; 4] = kani::any();
+    // decode is exact and non-negative; encode(decode(b)) == b
+    let d = h::dur_from_bits_short(b);
+    assert!(h::dur_raw(d) == (u32::from_be_bytes(b) as i64) << 16, "short decode");
+    assert!(h::dur_to_bits_short(d) == b, "short wire round trip");
+    let t = h::dur_from_bits_time32(b);
+    assert!(h::dur_raw(t) == (u32::from_be_bytes(b) as i64) << 4, "time32 decode");
+    assert!(h::dur_to_bits_time32(t) == b, "time32 wire round trip");
+    // every non-negative duration that fits encodes to within one wire unit
+    let a: i64 = kani::any();
+    kani::assume(a >= 0 && a <= 0x0000_FFFF_FFFF_FFFF);
+    let back = h::dur_raw(h::dur_from_bits_short(h::dur_to_bits_short(h::dur_from_raw(a))));
+    assert!(back <= a && a - back < (1 << 16), "short encoding truncates by less than one unit");
+    let c: i64 = kani::any();
+    kani::assume(c >= 0 && c <= 0xF_FFFF_FFFF);
+    let back = h::dur_raw(h::dur_from_bits_time32(h::dur_to_bits_time32(h::dur_from_raw(c))));
+    assert!(back <= c && c - back < (1 << 4), "time32 encoding truncates by less than one unit");
+    // time32 saturates above its range instead of wrapping
+    let e: i64 = kani::any();
+    kani::assume(e > 0xF_FFFF_FFFF);
+    assert!(h::dur_to_bits_time32(h::dur_from_raw(e)) == [0xFF; 4], "time32 saturates");
+}
+
+#[kani::proof]
+fn c32_dur_misc() {
+    let a: i64 = kani::any();
+    let d = h::dur_from_raw(a);
+    let (s, n) = d.as_seconds_nanos();
+    assert!(n < 1_000_000_000, "nanoseconds part below one second");
+    assert!(s as i64 == a >> 32, "seconds part is the floor");
+    let e: i8 = kani::any();
+    let x = h::dur_raw(NtpDuration::from_exponent(e));
+    assert!(x >= 0, "2^k seconds is never negative");
+    if e >= -32 && e <= 30 {
+        assert!(x as i128 == if e >= 0 { (1i128 << 32) << e } else { (1i128 << 32) >> (-(e as i32)) }, "2^k seconds exact");
+    }
+    if a != 0 {
+        let l = d.log2();
+        if a > 0 {
+            assert!((a as i128) >= (1i128 << (l as i32 + 32)) && (a as i128) < (1i128 << (l as i32 + 33)), "log2 is the floor");
+        }
+    }
+    let p: i8 = kani::any();
+    let pi = h::poll_from_raw(p);
+    let pd = h::dur_raw(pi.as_duration());
+    assert!(pd > 0, "poll interval duration positive");
+}
+
+// ------------------------------------------------------------------ PTP (statime-base) types
+use statime_base::verif::time_types as ph;
+use statime_base::{Duration as PDur, TAI, Timestamp as PTs};
+
+fn wrap128(a: u128, b: u128) -> i128 {
+    a.wrapping_sub(b) as i128
+}
+
+#[kani::proof]
+fn c32_ptp_ts() {
+    let a: u128 = kani::any();
+    let b: u128 = kani::any();
+    let ta: PTs<TAI> = ph::ts_from_raw(a);
+    let tb: PTs<TAI> = ph::ts_from_raw(b);
+    let d = ta - tb;
+    // two-limb reference: the difference modulo 2^128 interpreted as signed
+    let (lo, borrow) = (a as u64).overflowing_sub(b as u64);
+    let hi = ((a >> 64) as u64).wrapping_sub((b >> 64) as u64).wrapping_sub(borrow as u64);
+    let want = (((hi as u128) << 64) | lo as u128) as i128;
+    assert!(ph::dur_raw(d) == want, "ptp ts - ts is the wrapped signed difference");
+    assert!(tb + d == ta, "ptp adding the difference back restores the timestamp");
+    assert!(ta - d == tb, "ptp subtracting the difference restores the other");
+    let mut t = tb;
+    t += d;
+    assert!(t == ta, "ptp +=");
+    t -= d;
+    assert!(t == tb, "ptp -=");
+    kani::cover!(a < b && want > 0, "ptp wrap");
+}
+
+#[kani::proof]
+fn c32_ptp_dur_add_sub() {
+    let a: i128 = kani::any();
+    let b: i128 = kani::any();
+    let s = ph::dur_raw(ph::dur_from_raw(a) + ph::dur_from_raw(b));
+    // reference without 256-bit arithmetic: overflow iff signs equal and result sign differs
+    let w = a.wrapping_add(b);
+    let ovf = (a >= 0) == (b >= 0) && (w >= 0) != (a >= 0);
+    let want = if !ovf { w } else if a >= 0 { i128::MAX } else { i128::MIN };
+    assert!(s == want, "ptp duration addition saturates");
+    let d = ph::dur_raw(ph::dur_from_raw(a) - ph::dur_from_raw(b));
+    let w = a.wrapping_sub(b);
+    let ovf = (a >= 0) != (b >= 0) && (w >= 0) != (a >= 0);
+    let want = if !ovf { w } else if a >= 0 { i128::MAX } else { i128::MIN };
+    assert!(d == want, "ptp duration subtraction saturates");
+    let mut x = ph::dur_from_raw(a);
+    x += ph::dur_from_raw(b);
+    assert!(ph::dur_raw(x) == s, "ptp +=");
+    let mut y = ph::dur_from_raw(a);
+    y -= ph::dur_from_raw(b);
+    assert!(ph::dur_raw(y) == d, "ptp -=");
+    kani::cover!(s == i128::MAX && a != i128::MAX && b != i128::MAX, "ptp saturated");
+}
+
+macro_rules! ptp_scale {
+    ($name:ident, $t:ty) => {
+        #[kani::proof]
+        fn $name() {
+            let a: i128 = kani::any();
+            let k: $t = kani::any();
+            let d = ph::dur_from_raw(a);
+            let want = match a.checked_mul(k as i128) {
+                Some(v) => v,
+                None => {
+                    if (a < 0) != ((k as i128) < 0) {
+                        i128::MIN
+                    } else {
+                        i128::MAX
+                    }
+                }
+            };
+            assert!(ph::dur_raw(d * k) == want, "ptp dur * k saturates");
+            assert!(ph::dur_raw(k * d) == want, "ptp k * dur saturates");
+            if k != 0 {
+                let wantq = if a == i128::MIN && (k as i128) == -1 { i128::MAX } else { a / (k as i128) };
+                assert!(ph::dur_raw(d / k) == wantq, "ptp dur / k");
+            }
+        }
+    };
+}
+ptp_scale!(c32_ptp_scale_i8, i8);
+ptp_scale!(c32_ptp_scale_u8, u8);
+ptp_scale!(c32_ptp_scale_i16, i16);
+ptp_scale!(c32_ptp_scale_u16, u16);
+
+#[kani::proof]
+fn c32_ptp_ctor() {
+    let s: i64 = kani::any();
+    let n: u32 = kani::any();
+    kani::assume(n < 1_000_000_000);
+    let d = ph::dur_raw(PDur::from_seconds_nanos(s, n));
+    assert!(d >> 64 == s as i128, "ptp duration seconds part");
+    let su: u64 = kani::any();
+    let t: PTs<TAI> = PTs::from_seconds_nanos_since_unix_epoch(su, n);
+    assert!(ph::ts_raw(t) >> 64 == su as u128, "ptp timestamp seconds part");
 }
